@@ -295,7 +295,8 @@ class LocalFileStore(Store):
                     raise DDSException(
                         f"Requested to load path {path} but directory {loc_dir} does not exist"
                     )
-                if not os.path.exists(loc):
+                if not os.path.islink(loc) or not os.path.exists(loc):
+                    # (a directory of the data tree is not a committed path)
                     raise DDSException(
                         f"Requested to load path {path} but path {loc} does not exist"
                     )
